@@ -319,3 +319,22 @@ def time_on_timeline(y, m, d, h, mi, s, ns, off):
 def time_of_day_on_timeline(h, mi, s, ns, off):
     tz = ite(off is None, 0, off)
     return (3600 * h + 60 * mi + s - 60 * tz) * 1000000000 + ns
+
+
+# ---------------------------------------------------------------------------------------------
+# XSD wildcard namespace constraint as xsdata documents it (docs/models/fields.md, NamespaceType):
+# "##any" admits everything, "" (##local) only unqualified names, "!ns" (##other) everything but ns,
+# a literal namespace only that namespace.
+# ---------------------------------------------------------------------------------------------
+def wildcard_admits(check, uri):
+    if check == "##any":
+        return True
+    if check == "":
+        return uri is None
+    if check[0] == "!":
+        return uri is None or uri != check[1:]
+    return uri is not None and uri == check
+
+
+def some(x):
+    return x
